@@ -28,13 +28,14 @@ static void case_begin(void) { bad = 0; ncase++; }
 static int  want_sample(void) { return ncase == 1 || (ncase % 9973) == 0 || bad || mc_verbose; }
 static uint64_t hmix(uint64_t h, uint64_t v) { h ^= v; h *= 0xFF51AFD7ED558CCDull; h ^= h >> 29; return h; }
 
+static int INIT_EMCY; static CO_EMCY_TBL InitEmcy[2];
 static void node_init(CO_OBJ *root, uint16_t dictlen, uint8_t nodeid)
 {
     CO_NODE_SPEC spec;
     w_regions_clear();
     w_reset(1000);
     memset(&Node, 0, sizeof Node); memset(TMem, 0, sizeof TMem); memset(SdoBuf, 0, sizeof SdoBuf); ErrReg = 0;
-    spec.NodeId = nodeid; spec.Baudrate = 250000; spec.Dict = root; spec.DictLen = dictlen; spec.EmcyCode = 0;
+    spec.NodeId = nodeid; spec.Baudrate = 250000; spec.Dict = root; spec.DictLen = dictlen; spec.EmcyCode = INIT_EMCY ? InitEmcy : 0;
     spec.TmrMem = TMem; spec.TmrNum = 4; spec.TmrFreq = 1000; spec.Drv = &W_IfDrv; spec.SdoBuf = SdoBuf;
     CONodeInit(&Node, &spec);
     mc_steps++;
@@ -165,7 +166,7 @@ static void replay_lookup(const int *c, int n)
 }
 
 /* ================================================================== cfg 1: type initialisation exactly once */
-#define MAXINIT 24
+#define MAXINIT 48
 static int  CNT[MAXINIT], CNT_FOREIGN, CNT_BADNODE, FAILPOS;
 static CO_OBJ *IRoot; static int IN;           /* heap block of exactly IN+1 elements */
 
@@ -190,6 +191,14 @@ static const uint32_t FAM2[12] = { DEV(0x0001, 0), DEV(0x0002, 5), DEV(0x0FFF, 0
                                    DEV(0x6000, 0), DEV(0x6000, 1), DEV(0xA000, 0), DEV(0xFFFE, 0xFF), DEV(0xFFFF, 0), DEV(0xFFFF, 0xFF) };
 static const uint32_t MIXC[4] = { DEV(0x0002, 0), DEV(0x1002, 0), DEV(0x2000, 0), DEV(0xFFFF, 0xFF) };   /* before / inside / after the mandatory entries */
 
+/* keys the services of the stack look up themselves while the node is initialised (error history, SYNC, parameter store, EMCY, heartbeat
+ * consumer, SDO client, PDO communication and mapping, LSS): an entry there whose type is the application's must be initialised once like any other */
+static const uint32_t SVC[] = { DEV(0x1003, 0), DEV(0x1003, 1), DEV(0x1005, 0), DEV(0x1006, 0), DEV(0x1007, 0), DEV(0x1010, 0), DEV(0x1010, 1), DEV(0x1011, 0), DEV(0x1011, 1), DEV(0x1012, 0),
+                                DEV(0x1014, 0), DEV(0x1015, 0), DEV(0x1016, 0), DEV(0x1016, 1), DEV(0x1017, 0), DEV(0x1019, 0), DEV(0x1200, 0), DEV(0x1200, 1), DEV(0x1200, 2), DEV(0x1201, 0),
+                                DEV(0x1280, 0), DEV(0x1280, 1), DEV(0x1400, 0), DEV(0x1400, 1), DEV(0x1400, 2), DEV(0x1600, 0), DEV(0x1600, 1), DEV(0x1800, 0), DEV(0x1800, 1), DEV(0x1800, 2),
+                                DEV(0x1800, 3), DEV(0x1800, 5), DEV(0x1A00, 0), DEV(0x1A00, 1), DEV(0x1F80, 0) };
+#define NSVC ((int)(sizeof SVC / sizeof SVC[0]))
+
 /* variant 0: only counting entries (L of them, key family fam); variant 1: mandatory entries + the counting entries of mask L */
 static void init_case(int variant, int L, int fam, int failpos, int mv)
 {
@@ -201,11 +210,16 @@ static void init_case(int variant, int L, int fam, int failpos, int mv)
             uint32_t d = fam == 0 ? DEV(0x2000 + i, 0) : fam == 1 ? DEV(0x2000, i) : (i == L - 1 && L > 1) ? FAM2[11] : FAM2[i];
             od_add(&b, d | CO_OBJ_____RW, &CntType, (CO_DATA)0);
         }
-    } else {
+    } else if (variant == 1) {
         od_mandatory(&b, &ErrReg);
         od_add(&b, CO_KEY(0x1017, 0, CO_OBJ_D___RW), CO_TUNSIGNED16, (CO_DATA)0);
         for (int i = 0; i < 4; i++) if (L & (1 << i)) od_add(&b, MIXC[i] | CO_OBJ_____RW, &CntType, (CO_DATA)0);
+    } else {
+        /* variants 2/3 (without / with an emergency table): mandatory entries + counting entries at the service keys L and fam (L == fam: one; L == NSVC: all) */
+        od_mandatory(&b, &ErrReg);
+        for (int i = 0; i < NSVC; i++) if (i == L || i == fam || L == NSVC) od_add(&b, SVC[i] | CO_OBJ_____RW, &CntType, (CO_DATA)0);
     }
+    INIT_EMCY = (variant == 3); InitEmcy[0].Reg = 0; InitEmcy[0].Code = 0x1000; InitEmcy[1].Reg = 1; InitEmcy[1].Code = 0x2000;
     IN = b.used;
     free(IRoot);
     IRoot = malloc(sizeof(CO_OBJ) * (size_t)(IN + 1));
@@ -243,6 +257,11 @@ static void run_init(int tier)
         if (fp >= __builtin_popcount((unsigned)m)) continue;
         mc_case(5, 1, m, 0, fp, mv);
         init_case(1, m, 0, fp, mv);
+    }
+    for (int v = 2; v <= 3; v++) for (int a = 0; a <= NSVC; a++) for (int c = a; c < (a == NSVC ? a + 1 : NSVC); c++) for (int fp = -1; fp < (tier ? 2 : 0); fp++) {
+        if (fp >= (a == NSVC ? NSVC : a == c ? 1 : 2)) continue;
+        mc_case(5, v, a, c, fp, 0);
+        init_case(v, a, c, fp, 0);
     }
 }
 
